@@ -85,20 +85,6 @@ def normal_form(t, consts=()):
     the truncating quotients / remainders occurring in it (each quotient an opaque symbol named by the normal forms of
     its own operands, constant quotients folded).  Equal normal forms => equal functions (exact integer arithmetic is
     assumed, i.e. no overflow); the converse does not hold."""
-    def leaf(n):
-        if n[0] == "const" and isinstance(n[1], str):
-            return n[1]
-        if n[0] == "param":
-            return "p%d" % n[1]
-        if n[0] == "bin" and n[1] in ("Div", "Rem"):
-            a, b = normal_form(n[2]), normal_form(n[3])
-            if a is None or b is None:
-                return None
-            if not any(k for k in a.t) and not any(k for k in b.t):
-                return None   # constant: folded below
-            return "%s(%r,%r)" % (n[1], a, b)
-        return None
-
     def conv(n):
         if n[0] == "bin" and n[1] in ("Div", "Rem"):
             a, b = conv(n[2]), conv(n[3])
@@ -122,6 +108,8 @@ def normal_form(t, consts=()):
         if n[0] == "bin" and n[1] in ("Add", "Sub", "Mul"):
             a, b = conv(n[2]), conv(n[3])
             return a + b if n[1] == "Add" else (a - b if n[1] == "Sub" else a * b)
+        if n[0] in ("call", "field", "payload", "upvar", "index"):
+            return Poly.sym(repr(n))   # an opaque integer value (a field, the result of a pure call)
         raise NotPolynomial(repr(n)[:200])
     try:
         return conv(t)
